@@ -27,6 +27,24 @@ PARTS = {'quick': 5, 'thorough': 5}
 WALKS = {'quick': (200, 300), 'thorough': (5000, 300)}
 BUDGET = {'quick': 50, 'thorough': 1000}
 MON = [ProfileMonitor, EstabMonitor]
+# prefix-seeded exploration: sessions whose timers coincide with the boot / idle-hold / retry timers, second sessions,
+# stopped peerings - states a breadth-first search from boot reaches only at depth 8-10
+PREFIXES = [
+    ('default', ['START', 'ACCEPT', 'OPEN_h9', 'TICK', 'TICK', 'KA']),      # hold expiry at 15 s = the boot timer still pending
+    ('default', ['START', 'ACCEPT', 'OPEN_h9', 'KA']),
+    ('default', ['TICK', 'ACCEPT', 'OPEN_h9', 'KA']),
+    ('default', ['TICK', 'ACCEPT', 'OPEN_h9', 'KA', 'NOTI_CEASE']),
+    ('default', ['TICK', 'ACCEPT', 'OPEN_h9', 'KA', 'STOP']),
+    ('default', ['TICK', 'ACCEPT', 'OPEN_h0', 'KA']),
+    ('default', ['TICK', 'ACCEPT', 'OPEN', 'TICK']),
+    ('default', ['TICK', 'REFUSE']),
+    ('small', ['TICK', 'ACCEPT', 'OPEN', 'KA', 'TICK', 'TICK']),
+    ('small', ['TICK', 'ACCEPT', 'OPEN', 'KA', 'PEERCLOSE']),
+    ('small', ['START', 'ACCEPT', 'OPEN', 'KA', 'TICK']),
+    ('retry40', ['TICK', 'TICK']),
+    ('retry40', ['TICK', 'ACCEPT', 'OPEN_h9', 'KA', 'TICK', 'TICK', 'TICK']),
+]
+PREFIX_DEPTH = {'quick': 3, 'thorough': 5}
 
 
 def plan(tier, seed):
@@ -35,6 +53,9 @@ def plan(tier, seed):
         d0, d = DEPTH[tier][name]
         for p in range(PARTS[tier]):
             shards.append(dict(kind='bfs', cfg=name, part=p, nparts=PARTS[tier], d0=d0, depth=d, budget=BUDGET[tier]))
+    for i, (name, pre) in enumerate(PREFIXES):
+        for p in range(2):
+            shards.append(dict(kind='bfs', cfg=name, part=p, nparts=2, d0=1, depth=PREFIX_DEPTH[tier], budget=BUDGET[tier], start=[pre], pre=i))
     n, length = WALKS[tier]
     nshard = 4 if tier == 'quick' else 16
     for i in range(nshard):
@@ -61,7 +82,7 @@ def run_shard(sh):
 
     if sh['kind'] == 'bfs':
         ex = S.bfs_shard(cfg, MON, S.ALPHABET_C01, sh['d0'], sh['depth'], sh['part'], sh['nparts'],
-                         multi=False, time_budget=sh['budget'], on_run=note)
+                         multi=False, time_budget=sh['budget'], on_run=note, start=sh.get('start'))
         for k, v in ex.viol.items():
             viol.setdefault(k, v)
         res['evaluations'] = ex.execs
@@ -69,6 +90,8 @@ def run_shard(sh):
         res['counters'] = dict(executed_sequences=ex.execs, executed_events=ex.events, states=len(ex.seen),
                                regime_cuts=ex.cuts, same_instant_choice_points=ex.choice_points,
                                truncated_shards=int(ex.truncated), **stats)
+        if sh.get('start'):
+            res['counters']['prefix_seeded_sequences'] = ex.execs
         res['maxima'] = dict(depth_reached=ex.depth_reached)
         if sh['part'] == 0:
             res['samples'] = [dict(cfg=sh['cfg'], events=list(s)) for s in list(ex.seen.values())[-2:]]
